@@ -609,7 +609,9 @@ def monitor_c13(sc, obs):
                     cbs = ents[d].get('on_shutdown', [])
                     if any(c[0] == 'log' for c in cbs) and want != -1:
                         new = [c for c in o['cblog'][len(prev['cblog']):] if c[1] == d and c[4] == 1]
-                        if len(new) != 1 or new[0][5] != want:
+                        # once per registered callback (the same callback registered twice runs twice), each told the lost part
+                        nlog = sum(1 for c in cbs if c[0] == 'log') * (2 if ents[d].get('dup_shutdown') else 1)
+                        if len(new) != nlog or any(c[5] != want for c in new):
                             _bad(v, 'C13/failure-not-reported', 'op %d (t=%d): failure of processor %d (lost part %d) reached its shutdown callbacks %d times%s' % (
                                 i, o['now'], d, want, len(new), '' if not new else ' with part %d' % new[0][5]))
         prev = o
@@ -649,6 +651,19 @@ def monitor_c15(sc, obs):
             counts[(r[0], r[1])] += 1
             if r[0] in (6, 7, 8, 9, 10) and r[3] > o['now']:
                 _bad(v, 'C15/timestamp', 'op %d: a record carries time %d after the current time %d' % (i, r[3], o['now']))
+        # a received record carries the part's quality and value as it arrived (before the receive callbacks of the device):
+        # what the item looked like where it was seen before this event
+        if i > 0 and o['op'][0] == 'step' and o['st'] == 0:
+            seen = {}
+            for pe in obs[i - 1]['devices'].values():
+                for slot, it in _items_in(pe):
+                    if slot != 'inprog':
+                        seen[it['id']] = it
+            for r in o['data']:
+                if r[0] == 6 and r[4] in seen and (r[5], r[6]) != (seen[r[4]]['q'], seen[r[4]]['v']):
+                    _bad(v, 'C15/received-stamp', 'op %d (t=%d): device %d recorded part %d as received with (quality, value) = (%d, %d)/8, it arrived with (%d, %d)/8' % (
+                        i, o['now'], r[1], r[4], r[5], r[6], seen[r[4]]['q'], seen[r[4]]['v']))
+                    return v
         for a, d in o.get('fired', []):
             if a == 3:
                 fails[d] += 1
